@@ -328,6 +328,85 @@ func (w *world19) monConfined(host, target string, resp rawResp) string {
 	return "FAILS:200 body is not the content of any regular file inside the configured directory"
 }
 
+// isLayoutName: rel is a file name of the Static CT (logs) or witness/mirror URL layout
+func isLayoutName(isWit bool, name string) bool {
+	if strings.Contains(name, "index.html") || strings.Contains(name, "link-") {
+		return false
+	}
+	if !isWit {
+		return name == "checkpoint" || name == "log.v3.json" || strings.HasPrefix(name, "issuer/") || strings.HasPrefix(name, "tile/")
+	}
+	seg := strings.Split(name, "/")
+	isHash := func(s string) bool { return len(s) == 64 }
+	switch {
+	case name == "witness.v0.json", name == "mirror/mirror.v0.json",
+		len(seg) == 2 && isHash(seg[0]) && seg[1] == "checkpoint",
+		len(seg) == 3 && seg[0] == "mirror" && isHash(seg[1]) && seg[2] == "checkpoint",
+		len(seg) > 3 && seg[0] == "mirror" && isHash(seg[1]) && seg[2] == "tile":
+		return true
+	}
+	return false
+}
+
+// monMeta: a request whose target is a SPELLING of a layout path (it percent-decodes to
+// <prefix>/<layout name>, no dot segments, no empty segments) and that is answered 200 with that
+// stored object must carry the metadata the layout prescribes for that object, whichever way the
+// path was spelled (%2e for '.', %2F for the separator, ...)
+func (w *world19) monMeta(host, target string, resp rawResp) string {
+	if resp.err != nil || resp.status != 200 || special(resp) != "" {
+		return "holds"
+	}
+	h := host
+	if i := strings.LastIndex(h, ":"); i >= 0 && !strings.Contains(h, "]") {
+		h = h[:i]
+	}
+	path := target
+	if i := strings.Index(path, "?"); i >= 0 {
+		path = path[:i]
+	}
+	dec, err := url.PathUnescape(path)
+	if err != nil {
+		return "holds"
+	}
+	for _, seg := range strings.Split(strings.TrimPrefix(dec, "/"), "/") {
+		if seg == "" || seg == "." || seg == ".." {
+			return "holds" // not a spelling of a layout path
+		}
+	}
+	check := func(e entryCfg, isWit bool) string {
+		if e.host != h || !strings.HasPrefix(dec, e.prefix+"/") {
+			return ""
+		}
+		rel := strings.TrimPrefix(dec, e.prefix+"/")
+		f, ok := w.rootOf(e.dir).files[rel]
+		if !ok || f.kind != "reg" || !isLayoutName(isWit, rel) || !bytes.Equal(f.data, resp.body) {
+			return ""
+		}
+		ct, ce, cc := prescribed(rel)
+		if got := resp.header.Get("Content-Type"); got != ct {
+			return fmt.Sprintf("FAILS:200 with the stored object %s but Content-Type %q, layout prescribes %q", rel, got, ct)
+		}
+		if got := resp.header.Get("Content-Encoding"); got != ce {
+			return fmt.Sprintf("FAILS:200 with the stored object %s but Content-Encoding %q, layout prescribes %q", rel, got, ce)
+		}
+		if got := resp.header.Get("Cache-Control"); got != cc {
+			return fmt.Sprintf("FAILS:200 with the stored object %s but Cache-Control %q, layout prescribes %q", rel, got, cc)
+		}
+		return "holds"
+	}
+	for _, e := range w.cfg.logs {
+		if v := check(e, false); v != "" {
+			return strings.ReplaceAll(v, "|", "/")
+		}
+	}
+	for _, e := range w.cfg.wits {
+		if v := check(e, true); v != "" {
+			return strings.ReplaceAll(v, "|", "/")
+		}
+	}
+	return "holds"
+}
+
 func (w *world19) monClient(s *server, l entryCfg, rl *realLog) string {
 	hc := &http.Client{Timeout: 60 * time.Second, Transport: &http.Transport{
 		DialContext: func(ctx context.Context, network, addr string) (net.Conn, error) {
@@ -571,7 +650,7 @@ func runC19(r *mrand.Rand, bin, scratch string, n int) {
 func (w *world19) replay(s *server, stats map[string]int) {
 	seen := map[string]bool{}
 	for _, f := range replayLines {
-		if len(f) < 3 || (f[0] != "req" && f[0] != "mon_confined" && f[0] != "mon_layout") {
+		if len(f) < 3 || (f[0] != "req" && f[0] != "mon_confined" && f[0] != "mon_layout" && f[0] != "mon_meta") {
 			continue
 		}
 		hb, err1 := hex.DecodeString(strings.TrimPrefix(f[1], "-"))
@@ -584,6 +663,7 @@ func (w *world19) replay(s *server, stats map[string]int) {
 		resp := s.get(host, target)
 		emit("req|%s|%s|=>|%s", hx(hb), hx(tb), renderResp(resp))
 		emit("mon_confined|%s|%s|=>|%s", hx(hb), hx(tb), w.monConfined(host, target, resp))
+		emit("mon_meta|%s|%s|=>|%s", hx(hb), hx(tb), w.monMeta(host, target, resp))
 		stats["replay"]++
 		if f[0] == "mon_layout" {
 			for _, e := range append(append([]entryCfg{}, w.cfg.logs...), w.cfg.wits...) {
@@ -606,6 +686,7 @@ func (w *world19) requests(r *mrand.Rand, s *server, budget int, stats map[strin
 		resp := s.get(host, target)
 		emit("req|%s|%s|=>|%s", hx([]byte(host)), hx([]byte(target)), renderResp(resp))
 		emit("mon_confined|%s|%s|=>|%s", hx([]byte(host)), hx([]byte(target)), w.monConfined(host, target, resp))
+		emit("mon_meta|%s|%s|=>|%s", hx([]byte(host)), hx([]byte(target)), w.monMeta(host, target, resp))
 		stats[cat]++
 	}
 	// (a) every layout path of every log, witness and mirror
